@@ -48,6 +48,7 @@ type Case struct {
 	PointTimes bool
 	Mode       string // batch | stream-runs | stream-each
 	Batches    [][]V  // batch mode: batches; stream-runs: runs of equal-time points; stream-each: one sequence (Batches[0])
+	Ungrouped  bool   // batch mode: the batch has no group tags and one of its points no tags at all
 	Backwards  bool   // stream-runs: the runs arrive with DEcreasing time stamps (every run is still a run of its own)
 }
 
@@ -69,6 +70,15 @@ type pt struct {
 
 var groupTags = map[string]string{"h": "a"}
 
+// set per case by check() (the harness runs one case at a time)
+func setGroupTags(c Case) {
+	if c.Ungrouped {
+		groupTags = map[string]string{}
+	} else {
+		groupTags = map[string]string{"h": "a"}
+	}
+}
+
 func tmaxOf(k int) time.Time { return kit.T0.Add(time.Duration(k+1) * 100 * time.Second) }
 
 // points of batch k (times strictly increasing with irregular gaps, every point its own tag p and field o)
@@ -80,6 +90,12 @@ func pointsOf(c Case, k int) []pt {
 			t = runTime(c, k)
 		}
 		p := pt{v: v, t: t, idx: j, tags: map[string]string{"h": "a", "p": fmt.Sprintf("p%d", j)}, flds: map[string]any{"o": int64(10*k + j)}}
+		if j == 1 {
+			delete(p.tags, "p") // one point of every batch carries the group's tags only
+		}
+		if c.Ungrouped {
+			delete(p.tags, "h")
+		}
 		if v.K != 'n' {
 			p.flds["v"] = v.val()
 		}
@@ -463,7 +479,7 @@ func run(t *testing.T, c Case) (res result) {
 				for _, p := range ps {
 					bps = append(bps, edge.NewBatchPointMessage(models.Fields(p.flds), models.Tags(p.tags), p.t))
 				}
-				b := edge.NewBufferedBatchMessage(edge.NewBeginBatchMessage("m", models.Tags{"h": "a"}, false, tmaxOf(k), len(bps)), bps, edge.NewEndBatchMessage())
+				b := edge.NewBufferedBatchMessage(edge.NewBeginBatchMessage("m", models.Tags(copyTags(groupTags)), false, tmaxOf(k), len(bps)), bps, edge.NewEndBatchMessage())
 				if err := cols[0].CollectBatch(b); err != nil {
 					res.err = err.Error()
 				}
@@ -591,6 +607,9 @@ func describe(c Case) string {
 		bs = append(bs, "["+strings.Join(vs, " ")+"]")
 	}
 	mode := c.Mode
+	if c.Ungrouped {
+		mode += "(no group tags)"
+	}
 	if c.Backwards {
 		mode += "(runs arriving with decreasing time stamps)"
 	}
@@ -738,6 +757,18 @@ func checkBatchItem(c Case, f Fn, ps []pt, isInt bool, wants []outv, b *kit.Bt, 
 			if !okT {
 				return fmt.Sprintf("point %d (value %v) time %d is not admissible (usePointTimes=%v)", i, got, p.T.Unix(), c.PointTimes)
 			}
+			if strings.HasPrefix(f.Name, "top") || strings.HasPrefix(f.Name, "bottom") {
+				// a selected point keeps its own tags (on top of the group's), nobody else's
+				okTags := false
+				for _, j := range w.cand {
+					if tagsEq(p.Tags, ps[j].tags) {
+						okTags = true
+					}
+				}
+				if !okTags {
+					return fmt.Sprintf("point %d (value %v) carries tags %s, which are not the tags of an input point with that value", i, got, kit.FmtTags(p.Tags))
+				}
+			}
 			used[k], found = true, true
 			break
 		}
@@ -748,7 +779,16 @@ func checkBatchItem(c Case, f Fn, ps []pt, isInt bool, wants []outv, b *kit.Bt, 
 	return ""
 }
 
+func copyTags(m map[string]string) map[string]string {
+	r := map[string]string{}
+	for k, v := range m {
+		r[k] = v
+	}
+	return r
+}
+
 func check(t *testing.T, c Case, r *rep.R) []problem {
+	setGroupTags(c)
 	f := fns[c.Fn]
 	res := run(t, c)
 	var ps []problem
@@ -1017,6 +1057,11 @@ func TestCheck(t *testing.T) {
 					}
 					if !runCase(Case{Fn: fi, As: as, PointTimes: ptm, Mode: "batch", Batches: in}) {
 						return
+					}
+					if f.Out == "batch" && as == "" && ii < nNormal {
+						if !runCase(Case{Fn: fi, As: as, PointTimes: ptm, Mode: "batch", Batches: in, Ungrouped: true}) {
+							return
+						}
 					}
 					if f.Out != "transform" {
 						if !runCase(Case{Fn: fi, As: as, PointTimes: ptm, Mode: "stream-runs", Batches: in}) {
